@@ -228,8 +228,19 @@ func (e *SpecEnv) lookupIdent(name string) (Val, bool) {
 		if v, ok := e.fr.params[name]; ok {
 			return v, true
 		}
+		// package-level constants shadow SSA register / callee names
+		if e.pkg != nil {
+			if o := e.pkg.Scope().Lookup(name); o != nil {
+				if k, ok := o.(*types.Const); ok {
+					return c.constToVal(k.Val(), k.Type()), true
+				}
+			}
+		}
 		// SSA register names as an escape hatch
 		for v, val := range e.fr.vals {
+			if _, isFn := v.(*ssa.Function); isFn {
+				continue
+			}
 			if v.Name() == name {
 				return val, true
 			}
@@ -618,6 +629,9 @@ func (e *SpecEnv) index(v, i Val) Val {
 		ks, vs := c.sortOf(tt.Key()), c.sortOf(tt.Elem())
 		c.heapSorts[k+"!dom"] = "(Array Int (Array " + ks + " Bool))"
 		c.heapSorts[k+"!val"] = "(Array Int (Array " + ks + " " + vs + "))"
+		if e.heapParams == nil {
+			c.wantSliceWF(k+"!val", e.heapOf(k+"!val"))
+		}
 		return Val{T: fmt.Sprintf("(select (select %s %s) %s)", e.heapOf(k+"!val"), v.T, i.T), Ty: tt.Elem()}
 	case *types.Pointer:
 		if at, ok := tt.Elem().Underlying().(*types.Array); ok {
